@@ -2,9 +2,9 @@ package main
 
 import (
 	"fmt"
+	"go/types"
 	"os"
 	"regexp"
-	"go/types"
 	"sort"
 	"strings"
 
@@ -24,8 +24,8 @@ const (
 )
 
 type pathStep struct {
-	Field int    // >=0: struct field index
-	Idx   string // Field<0: array index term
+	Field int        // >=0: struct field index
+	Idx   string     // Field<0: array index term
 	T     types.Type // type of the container at this step
 }
 
@@ -47,21 +47,21 @@ func (a *Addr) withStep(s pathStep) *Addr {
 }
 
 type Cell struct {
-	Name string
-	T    types.Type
-	ID   int
+	Name  string
+	T     types.Type
+	ID    int
 	Alloc *ssa.Alloc
 }
 
 type Val struct {
-	T   types.Type
-	S   string
-	A   *Addr
-	Tup []Val
-	Fn  *ssa.Function     // statically known function value
-	Clo *ssa.MakeClosure  // closure creation (for bindings)
+	T        types.Type
+	S        string
+	A        *Addr
+	Tup      []Val
+	Fn       *ssa.Function    // statically known function value
+	Clo      *ssa.MakeClosure // closure creation (for bindings)
 	CloFrame *Frame
-	Ty  *Ty // logical type override
+	Ty       *Ty // logical type override
 }
 
 func (v Val) ty() Ty {
@@ -83,13 +83,13 @@ type deferred struct {
 }
 
 type iterState struct {
-	ord   string // Array Int K
-	n     string
-	pos   string // inverse function symbol K -> Int
-	m     string // map ref
-	dom0  string // dom at Range
-	mt    *types.Map
-	it    *Cell // iterator position cell
+	ord  string // Array Int K
+	n    string
+	pos  string // inverse function symbol K -> Int
+	m    string // map ref
+	dom0 string // dom at Range
+	mt   *types.Map
+	it   *Cell // iterator position cell
 }
 
 type State struct {
@@ -132,16 +132,16 @@ type Obligation struct {
 	Hints  []string // extra assumptions for this goal only
 	Expect string   // "unsat" (default) or "sat" for smoke checks
 	// results
-	Status  string // "discharged", "failed", "unknown", "timeout", "error"
-	Solver  string
-	Time    float64
-	Model   string
-	Output  string
-	File    string
-	vc      *VC
-	Block   int
-	Scope   int
-	Extra   []int // additional scopes visible to this obligation
+	Status string // "discharged", "failed", "unknown", "timeout", "error"
+	Solver string
+	Time   float64
+	Model  string
+	Output string
+	File   string
+	vc     *VC
+	Block  int
+	Scope  int
+	Extra  []int // additional scopes visible to this obligation
 }
 
 // ---------------------------------------------------------------------------
@@ -149,11 +149,11 @@ type Obligation struct {
 // ---------------------------------------------------------------------------
 
 type loopInfo struct {
-	head    *ssa.BasicBlock
-	ordinal int
-	blocks  map[*ssa.BasicBlock]bool
+	head      *ssa.BasicBlock
+	ordinal   int
+	blocks    map[*ssa.BasicBlock]bool
 	backPreds []*ssa.BasicBlock
-	spec    *LoopSpec
+	spec      *LoopSpec
 	// range loops
 	rangeIdx  *ssa.Alloc // rangeindex cell of a range-over-slice loop
 	rangeLen  ssa.Value
@@ -165,38 +165,38 @@ type loopInfo struct {
 }
 
 type Frame struct {
-	vc      *VC
-	fn      *ssa.Function
-	key     string
-	spec    *FuncSpec
-	regs    map[ssa.Value]Val
-	cells   map[*ssa.Alloc]*Cell
-	byName  map[string][]*Cell
-	escaping map[*ssa.Alloc]bool
-	entry   *State
-	names   map[string]Val // params (entry values), let-bound names
-	results []Val
-	parent  *Frame
-	inlined bool
-	loops   map[*ssa.BasicBlock]*loopInfo
-	loopList []*loopInfo
-	counters map[string]int
-	iters   map[*ssa.Range]*iterState
-	freeVals map[*ssa.FreeVar]Val
-	bind    map[string]*ssa.Function // specialisation: func-typed param name -> closure function
-	bindVal map[string]Val
-	retStates []retEdge
-	curLoops []*loopInfo
-	callOrd map[string]int
-	dynOrd  int
-	resultNames []string
-	modCheck bool
-	modTargets []modTarget
-	decEntry string
-	ordinal map[ssa.Instruction]int
-	frameAssumed bool // frame obligations are assumed (proved by another contract of the same function)
-	callLines [2]int // lines holding the assumed postconditions of the most recent call
-	callPre *State // state just before the most recent call (at(call, e) in 'after call' ghost blocks)
+	vc           *VC
+	fn           *ssa.Function
+	key          string
+	spec         *FuncSpec
+	regs         map[ssa.Value]Val
+	cells        map[*ssa.Alloc]*Cell
+	byName       map[string][]*Cell
+	escaping     map[*ssa.Alloc]bool
+	entry        *State
+	names        map[string]Val // params (entry values), let-bound names
+	results      []Val
+	parent       *Frame
+	inlined      bool
+	loops        map[*ssa.BasicBlock]*loopInfo
+	loopList     []*loopInfo
+	counters     map[string]int
+	iters        map[*ssa.Range]*iterState
+	freeVals     map[*ssa.FreeVar]Val
+	bind         map[string]*ssa.Function // specialisation: func-typed param name -> closure function
+	bindVal      map[string]Val
+	retStates    []retEdge
+	curLoops     []*loopInfo
+	callOrd      map[string]int
+	dynOrd       int
+	resultNames  []string
+	modCheck     bool
+	modTargets   []modTarget
+	decEntry     string
+	ordinal      map[ssa.Instruction]int
+	frameAssumed bool   // frame obligations are assumed (proved by another contract of the same function)
+	callLines    [2]int // lines holding the assumed postconditions of the most recent call
+	callPre      *State // state just before the most recent call (at(call, e) in 'after call' ghost blocks)
 }
 
 type retEdge struct {
@@ -210,48 +210,48 @@ type retEdge struct {
 // ---------------------------------------------------------------------------
 
 type VC struct {
-	P     *Prog
-	S     *Sorts
-	unit  string
-	lines []string
-	obls  []*Obligation
-	nfresh int
-	unsupported []string
-	trusted  map[string]bool
-	heapSort map[string]string
+	P            *Prog
+	S            *Sorts
+	unit         string
+	lines        []string
+	obls         []*Obligation
+	nfresh       int
+	unsupported  []string
+	trusted      map[string]bool
+	heapSort     map[string]string
 	heapElemType map[string]types.Type
-	specDecls []string
+	specDecls    []string
 	specDeclared bool
-	curPkg  *types.Package
-	unitProps []string
-	inlineDepth int
-	notes []string
-	cellID int
-	quantFree bool
-	epochDecls []string
-	maxEpoch int
-	specErrors []string
-	hintCount int
-	lemmasUsed map[string]bool
-	specsUsed map[string]bool
-	unmodelled map[string]bool
-	inlined map[string]bool
-	pending []pendingFact
-	specUsed map[string]bool
-	oblNames map[string]int
-	ssubSeen map[string]bool
-	smokes   []*Obligation
-	named    map[string]string
-	entryAlloc string
-	lineScope []int // 0 = visible to every later obligation; n = only to obligations of ghost block n
-	emitScope int
-	extraScopes []int
-	uniqScope int
-	curScope  int
-	nextScope int
-	lineTag  []int // block index (top frame) in which each line was emitted; -1 = unconditional
-	curBlock int
-	anc      map[int]map[int]bool // block -> set of ancestor blocks (incl. itself)
+	curPkg       *types.Package
+	unitProps    []string
+	inlineDepth  int
+	notes        []string
+	cellID       int
+	quantFree    bool
+	epochDecls   []string
+	maxEpoch     int
+	specErrors   []string
+	hintCount    int
+	lemmasUsed   map[string]bool
+	specsUsed    map[string]bool
+	unmodelled   map[string]bool
+	inlined      map[string]bool
+	pending      []pendingFact
+	specUsed     map[string]bool
+	oblNames     map[string]int
+	ssubSeen     map[string]bool
+	smokes       []*Obligation
+	named        map[string]string
+	entryAlloc   string
+	lineScope    []int // 0 = visible to every later obligation; n = only to obligations of ghost block n
+	emitScope    int
+	extraScopes  []int
+	uniqScope    int
+	curScope     int
+	nextScope    int
+	lineTag      []int // block index (top frame) in which each line was emitted; -1 = unconditional
+	curBlock     int
+	anc          map[int]map[int]bool // block -> set of ancestor blocks (incl. itself)
 }
 
 func newVC(P *Prog, unit string, cur *types.Package) *VC {
@@ -284,7 +284,7 @@ func (vc *VC) assume(t string) {
 	if t == "true" || t == "" {
 		return
 	}
-	vc.emit("(assert "+t+")")
+	vc.emit("(assert " + t + ")")
 }
 
 func (vc *VC) assumeG(guard, t string) {
@@ -295,11 +295,11 @@ func (vc *VC) assumeG(guard, t string) {
 		vc.assume(t)
 		return
 	}
-	vc.emit("(assert (=> "+guard+" "+t+"))")
+	vc.emit("(assert (=> " + guard + " " + t + "))")
 }
 
 func (vc *VC) comment(s string) {
-	vc.emit("; "+strings.ReplaceAll(s, "\n", " "))
+	vc.emit("; " + strings.ReplaceAll(s, "\n", " "))
 }
 
 // smoke records a vacuity check: the assumptions up to this point (with the guard) must not be contradictory
@@ -561,6 +561,9 @@ func (vc *VC) heapTypeAxiom(name, term string, prelude bool, allocTerm string) {
 			if !strings.Contains(f, " 0)") || strings.Contains(f, "(<= 0 (s_len") {
 				fs = append(fs, f)
 			}
+		} else if strings.Contains(f, "(= (i_typ ") {
+			// a nil interface value has no payload
+			fs = append(fs, f)
 		} else if allocTerm != "" && strings.HasPrefix(f, "(< ") && strings.HasSuffix(f, " "+allocTerm+")") {
 			// every reference stored in memory is allocated
 			fs = append(fs, f)
